@@ -24,7 +24,9 @@ COQ_TARGETS = ['theories/Extract/ExtractC07.vo']
 REQUIRED_THEOREMS = ['C07_refines_partial', 'C07_refines_format_partial',
                      'C07_spec_functional', 'C07_limit_reported_once',
                      'C07_term_args_scoped', 'C07_unknown_reference_once', 'C07_unknown_reference_once_model',
-                     'C07_unknown_function_reported', 'C07_select_first_match']
+                     'C07_unknown_function_reported', 'C07_select_first_match',
+                     'C07_refines_all_runs', 'C07_refines_format_all_runs', 'C07_budget_conservative', 'C07_budget_total',
+                     'C07_limit_run_errors', 'C07_after_limit', 'C07_refines_below_limit']
 MODEL = 'c07'
 HARNESS_BINS = ['bundle_run', 'c07_run', 'syn_run']
 RELEASE_TOO = False
@@ -47,13 +49,15 @@ ASSUMPTIONS = [
     'cache_ok rules c: every plural-rules object in the bundle\'s memoizer computes what a fresh one computes (C08/C14 invariant)',
     'no_marks_in_values (only when use_isolating): no selector / call argument is a message or term reference or a nested placeable — '
     'known finding D23 (C09); nothing is assumed with isolation off',
-    'PARTIAL: TooManyPlaceables not among the reported errors (see PARTIAL)',
 ]
-PARTIAL = ('C07_refines_partial / C07_refines_format_partial cover every run that does not reach the placeable limit (cycles, value-less '
-           'messages, every kind of unknown reference and MissingDefault ARE covered). For a run that reaches the limit the specification says '
-           'nothing about the text (the property does not either); proved instead: TooManyPlaceables is reported exactly once and iff the run '
-           'was cut short (C07_limit_reported_once), plus C06_budget / C06_limit_error. The converse direction (every Eval derivation is '
-           'produced by the model) follows from C06_total + C07_spec_functional for runs below the limit and is not stated separately.')
+PARTIAL = ('the refinement now covers EVERY run, including runs that reach the placeable limit: a budgeted big-step semantics '
+           '(Bundle/ResolverSpecLimit.v: the rules of ResolverSpec.v with the placeable counter and the dirty flag threaded, plus the limit / '
+           'stopped / cut rules that mirror pattern.rs and scope.rs) is refined by the model without any premise on the reported errors '
+           '(C07_refines_all_runs, C07_refines_format_all_runs); it is deterministic, total, and coincides with the un-budgeted Spec when the run '
+           'ends not dirty (C07_budget_conservative, C07_budget_total); in a limit run TooManyPlaceables occurs exactly once and the errors before '
+           'it are those of the unlimited evaluation (C07_limit_run_errors); what is evaluated after the limit is characterised rule by rule '
+           '(C07_after_limit). Remaining premise: with isolation ON, no_marks_in_values (excludes the D23 class, a finding of C09). The format '
+           'theorem is for isolation off, as before.')
 RULE = ('the repository\'s resolver fixtures (all non-skipped asserts: expected value, error kinds, Display text of Reference errors) + '
         'compositional generators: term calls nested in term calls followed by variables at every level with arguments present/absent/shadowing '
         'caller arguments; messages referenced from terms; references through term attributes with arguments; every kind of missing reference '
@@ -69,15 +73,15 @@ MANIFEST = {
             'selector by exact string / numeric VALUE / plural category, else the default; unknown message/term/attribute/function/variable = '
             '{source form} + exactly one Reference error, a term parameter that was not passed = same text, no error; cycle / value-less message '
             '= one error where it occurs), and theorems over ALL bundles, argument sets, patterns, transforms, formatters, function tables and '
-            'both isolation settings: whenever write_pattern / format_pattern of the resolver model returns without having reported '
-            'TooManyPlaceables, its text, its error list (in order) and its function-invocation log are exactly those of the specification '
-            '(C07_refines_partial, C07_refines_format_partial; induction on fuel over the 8 mutually recursive resolver functions); the '
+            'both isolation settings: whenever write_pattern / format_pattern of the resolver model returns, its text, its error list (in order) and '
+            'its function-invocation log are exactly those of the (budgeted) specification, for runs below AND at the placeable limit '
+            '(C07_refines_all_runs, C07_refines_format_all_runs; C07_refines_partial is the corollary below the limit; induction on fuel over the 8 mutually recursive resolver functions); the '
             'specification is a function (C07_spec_functional); TooManyPlaceables is reported exactly once and iff the run was cut short '
             '(C07_limit_reported_once); regressions D12 (outer term arguments back in force: C07_term_args_scoped), D13 (unknown function '
             'reported in selector/argument position: C07_unknown_function_reported), D14 (numeric key equality by value: '
             'C07_select_first_match) as theorems with machine-checked witnesses. The model is tied to the Rust resolver by running the '
             'extracted model and the real bundle on the same cases; an independent Python resolver checks the real output.',
-    'note': 'Partial: runs that reach the placeable limit are outside the specification (only the error accounting is proved). Excluded '
+    'note': 'Runs that reach the placeable limit are inside the specification (budgeted semantics, ResolverSpecLimit.v). Excluded '
             'class with a recorded witness: D23 (isolation marks in selector/argument values, isolating bundles only). Trusted: Coq kernel, extraction, the hand transliteration (validated by the differential run), '
             'the specification as the reading of the property (validated by the repository\'s fixtures and the Python resolver).',
     'technique': 'Rocq proof (refinement of an executable model to a relational big-step specification, induction on fuel) + differential '
